@@ -19,8 +19,14 @@ from . import algebra, coords
 from .algebra import rat, angle_of, result_kind
 
 mpf = mpmath.mpf
-SKIP_OPS = {"abs", "square", "np_sqrt", "np_cbrt", "np_power", "neg", "divide", "scale2D", "scale3D", "neg2D", "neg3D",
-            "transform2D_partial", "transform3D_partial", "equal", "not_equal", "isclose"}     # operator / ufunc forms: C05, C11
+SKIP_OPS = {"transform2D_partial", "transform3D_partial"}
+# operator and ufunc spellings: each backend implements them in its own table (Awkward behaviors keyed by record name,
+# NumPy __array_ufunc__, object dunder methods); exponents and factors of these spellings are plain numbers
+SCALAR_ONLY = {"np_power", "divide"}
+OPFORMS = {"add": ["method", "operator", "ufunc"], "subtract": ["method", "operator", "ufunc"], "dot": ["method", "operator", "ufunc"],
+           "scale": ["method", "operator", "roperator", "ufunc"], "neg": ["operator", "ufunc"], "abs": ["operator", "ufunc"],
+           "square": ["operator", "ufunc"], "equal": ["method", "operator", "ufunc"], "not_equal": ["method", "operator", "ufunc"],
+           "divide": ["operator", "ufunc"]}
 
 
 def hsh(*parts):
@@ -30,7 +36,7 @@ def hsh(*parts):
 def group_key(c):
     op, p = c["op"], c["p"]
     fixed = None
-    if op in ("rotate_euler", "rotate_nautical", "rotate_quaternion", "transform2D", "transform3D", "transform4D"):
+    if op in ("rotate_euler", "rotate_nautical", "rotate_quaternion", "transform2D", "transform3D", "transform4D") or op in SCALAR_ONLY:
         fixed = json.dumps(p)
     return json.dumps([op, len(c["a"]), len(c["b"]) if c["b"] else 0, fixed])
 
@@ -38,7 +44,7 @@ def group_key(c):
 def scalar_params(c):
     """Per-element scalar parameters (floats) of a case, in call order."""
     op, p = c["op"], c["p"]
-    if op in ("scale",):
+    if op in ("scale", "scale2D", "scale3D"):
         return [float(rat(p[0]))]
     if op in ("rotateZ", "rotateX", "rotateY", "rotate_axis"):
         return [float(angle_of(p[0], 0))]
@@ -49,13 +55,40 @@ def scalar_params(c):
     return []
 
 
-def call(op, A, B, params, fixed):
+def call(op, A, B, params, fixed, form="method"):
     if op in algebra.UNARY_PROPS:
         return getattr(A, op)
     if op in ("unit", "to_beta3"):
         return getattr(A, op)()
     if op == "scale":
-        return A.scale(params[0])
+        f = params[0]
+        return {"method": lambda: A.scale(f), "operator": lambda: A * f, "roperator": lambda: f * A, "ufunc": lambda: numpy.multiply(A, f)}[form]()
+    if op in ("scale2D", "scale3D"):
+        return getattr(A, op)(params[0])
+    if op in ("neg2D", "neg3D"):
+        return getattr(A, op)
+    if op == "abs":
+        return abs(A) if form != "ufunc" else numpy.absolute(A)
+    if op == "square":
+        return {"operator": lambda: A ** 2, "ufunc": lambda: numpy.square(A), "power2": lambda: numpy.power(A, 2)}.get(form, lambda: A ** 2)()
+    if op == "np_sqrt":
+        return numpy.sqrt(A)
+    if op == "np_cbrt":
+        return numpy.cbrt(A)
+    if op == "np_power":
+        e = float(rat(fixed[0]))
+        return numpy.power(A, e) if form != "operator" else A ** e
+    if op == "neg":
+        return -A if form != "ufunc" else numpy.negative(A)
+    if op == "divide":
+        d = float(rat(fixed[0]))
+        return A / d if form != "ufunc" else numpy.true_divide(A, d)
+    if op in ("add", "subtract", "dot", "equal", "not_equal") and form != "method":
+        import operator as _o
+
+        fn = {"add": (_o.add, numpy.add), "subtract": (_o.sub, numpy.subtract), "dot": (_o.matmul, numpy.matmul),
+              "equal": (_o.eq, numpy.equal), "not_equal": (_o.ne, numpy.not_equal)}[op][0 if form == "operator" else 1]
+        return fn(A, B)
     if op in ("rotateZ", "rotateX", "rotateY"):
         return getattr(A, op)(params[0])
     if op == "rotate_axis":
@@ -322,9 +355,15 @@ def run_group(key, cases, full, only_int=False):
     nparams = len(pvals[0])
     scale = 1 + max([abs(float(x)) for v in va for x in v] + ([abs(float(x)) for v in vb for x in v] if vb else []))
     scale = scale * scale * 10
-    for sa, sb in combos:
+    # the operator / ufunc spellings are table entries per record name (Vector2D ... Momentum4D): both flavors always
+    both = op in OPFORMS or op in ("np_sqrt", "np_cbrt", "np_power")
+    combos = [(sa, sb, fl) for sa, sb in combos for fl in ((0, 1) if both and not only_int else (None,))]
+    for sa, sb, fl in combos:
         fa = "momentum" if hsh(key, sa, "fa") % 2 else "generic"
         fb = "momentum" if hsh(key, sb, "fb") % 2 else "generic"
+        if fl is not None:
+            fa = ("generic", "momentum")[fl]
+            fb = ("generic", "momentum")[(fl + hsh(key, sb, "fb")) % 2]
         # reference: the object backend, one call per element
         refs = []
         with warnings.catch_warnings(), numpy.errstate(all="ignore"):
@@ -333,7 +372,7 @@ def run_group(key, cases, full, only_int=False):
                 A = obj_of(va[i], sa, fa if op not in algebra.MOMENTUM_ONLY else "momentum")
                 B = obj_of(vb[i], sb, fb) if nb else None
                 try:
-                    refs.append(ref_value(rk, call(op, A, B, [numpy.float64(x) for x in pvals[i]], fixed)))
+                    refs.append(ref_value(rk, call(op, A, B, [numpy.float64(x) for x in pvals[i]], fixed, OPFORMS.get(op, ["method"])[0])))
                 except Exception as ex:
                     refs.append(("error", type(ex).__name__))
         if any(isinstance(r, tuple) and r and r[0] == "error" for r in refs):
@@ -346,8 +385,14 @@ def run_group(key, cases, full, only_int=False):
         for layout in (INT_LAYOUTS if only_int else LAYOUTS):
             forms = ["array"] if not nb else (B_FORMS if full else ["array", B_FORMS[1 + (hsh(key, layout) % 3)]])
             for bform in forms:
-                for pform in (["array", "scalar"] if nparams and len({json.dumps(p) for p in pvals}) == 1 else ["array"]) if nparams else ["none"]:
-                    base = {"op": op, "sig": [sa, sb], "tag": "c03", "layout": layout, "bform": bform, "pform": pform}
+                pforms = (["array", "scalar"] if nparams and len({json.dumps(p) for p in pvals}) == 1 else ["array"]) if nparams else ["none"]
+                oforms = OPFORMS.get(op, ["method"])
+                if not full:
+                    oforms = [oforms[hsh(key, layout, bform, "of") % len(oforms)]] if len(oforms) > 1 and layout not in ("np1", "akjag") else oforms
+                for pform, oform in itertools.product(pforms, oforms):
+                    if oform != "method" and op == "scale" and pform != "scalar":
+                        continue      # the operator spellings take plain numbers
+                    base = {"op": op, "sig": [sa, sb], "tag": "c03", "layout": layout, "bform": bform, "pform": pform, "oform": oform}
                     try:
                         A = make_array(layout, rowsa, namesa)
                         B = None
@@ -374,7 +419,7 @@ def run_group(key, cases, full, only_int=False):
                             params.append(vals[0] if pform == "scalar" else param_array(layout, vals, n))
                         with warnings.catch_warnings(), numpy.errstate(all="ignore"):
                             warnings.simplefilter("ignore")
-                            out = call(op, A, B, params, fixed)
+                            out = call(op, A, B, params, fixed, oform)
                         calls += 1
                     except NotIntegral:
                         continue
@@ -388,13 +433,17 @@ def run_group(key, cases, full, only_int=False):
                         if flat is not None:
                             recs.append(dict(base, kind="wrong-number-of-elements", got=len(flat), want=n))
                         continue
+                    nbad = 0
                     for i in range(n):
                         if nb and bform in ("object", "record") and vb[i] != vb[0]:
                             continue
                         if not compare(rk, flat[i], refs[i], scale):
                             recs.append(dict(base, kind="element-differs-from-object-backend", index=i, got=repr(flat[i])[:200],
-                                             want=repr(refs[i])[:200], case=cases[i]))
-                            break
+                                             want=repr(refs[i])[:200], case=cases[i], strata=algebra.strata(cases[i]),
+                                             params=json.dumps(cases[i]["p"])))
+                            nbad += 1
+                            if nbad >= 8:
+                                break
     return recs, calls, n
 
 
